@@ -63,5 +63,25 @@ def register(E):
     E.specfuncs['layer_name_of'] = lambda eng, st, l: VObj('Str', lname(l.z))
     for q in ('find._layer_name_cache', 'runner._layer_name_cache'):
         E.globals[q] = lambda eng, st: st.ghost['cache']
+    # every run starts from an empty name cache (entries of an earlier run in the same process may denote objects of modules
+    # that have been re-imported since): Runner.run empties the shared dict before any feature's global_setup
+    import ast
+    run, _, _ = E.find_def('runner.Runner.run')
+    lines = {}
+    for n in ast.walk(run):
+        if isinstance(n, ast.Call):
+            t = ast.unparse(n.func)
+            if t in ('self.layer_name_cache.clear', '_layer_name_cache.clear', 'feature.global_setup', 'self.run_tests'):
+                lines.setdefault(t.split('.')[-2] + '.' + t.split('.')[-1], []).append(n.lineno)
+    alias = any(isinstance(n, ast.Assign) and ast.unparse(n) == 'self.layer_name_cache = _layer_name_cache' for n in ast.walk(run))
+    clears = lines.get('layer_name_cache.clear', []) + lines.get('_layer_name_cache.clear', [])
+    first_use = min(lines.get('feature.global_setup', [10 ** 9]) + lines.get('self.run_tests', [10 ** 9]))
+    in_branch = [n for n in ast.walk(run) if isinstance(n, (ast.If, ast.For, ast.While, ast.Try))
+                 and any(isinstance(c, ast.Call) and ast.unparse(c.func).endswith('layer_name_cache.clear') for c in ast.walk(n))]
+    E.syntactic_obligation("Runner.run empties the shared layer-name cache, unconditionally, before discovery and the test phase",
+                           bool(clears) and min(clears) < first_use and not in_branch
+                           and (alias or '_layer_name_cache.clear' in [ast.unparse(n.func) for n in ast.walk(run) if isinstance(n, ast.Call)]),
+                           detail='clear at lines %s, first feature set-up / test phase at line %s, inside a branch: %s'
+                           % (clears, first_use, bool(in_branch)), props=('C01', 'C03'))
     E.add_contract('find.name_from_layer', NAME_FROM)
     E.add_contract('runner.layer_from_name', LAYER_FROM)
